@@ -21,7 +21,7 @@ TARGET = {
  'C19-m1': [('C19', None)], 'C19-m2': [('C19', None)],
  'C20-m1': [('C20', 'ALIAS')], 'C20-m2': [('C20', 'KMM')], 'C20-m3': [('C20', 'KMM_f32')],
  'C17-m1': [('C17', None)], 'C17-m2': [('C17', None)], 'C11-m1': [('C11', None)], 'C11-m2': [('C11', None)],
- 'C04-m1': [('C04', 'O1')], 'C04-m2': [('C04', 'O1')], 'C05-m1': [('C05', None)], 'C05-m2': [('C05', None)],
+ 'C04-m1': [('C04', 'errprop')], 'C04-m2': [('C04', 'errprop')], 'C05-m1': [('C05', None)], 'C05-m2': [('C05', None)],
 }
 
 def run_seed(sid):
